@@ -1,6 +1,7 @@
 package streams
 
 import (
+	"strings"
 	"context"
 	"fmt"
 	"math/rand"
@@ -51,6 +52,8 @@ type ersOutJ struct {
 	StatusUpdate *canon.ERSStatus `json:"statusUpdate,omitempty"`
 	Order        []string         `json:"order"`
 	Foreign      []string         `json:"foreign"`
+	// AppliedPods: pod creations / deletions of this sync that the API server applied
+	AppliedPods int `json:"appliedPods"`
 }
 
 func normErsStatusTimes(st *canon.ERSStatus, lo, hi, now int64) {
@@ -299,13 +302,27 @@ func streamErsReconcile(r *rand.Rand, i int, tier string) *Case {
 		objs = append(objs, d)
 	}
 	wl := &writeLog{}
-	cl := loggingClient(objs, wl, nil)
+	// one case in five: one of the first API writes of the sync is rejected, or applied with the
+	// answer lost (the writes attempted stay the planned ones; the status then reports the error)
+	var failAt map[int]string
+	if r.Intn(5) == 0 {
+		failAt = map[int]string{r.Intn(4): pick(r, "reject", "reject", "lost")}
+	}
+	cl := loggingClient(objs, wl, failAt)
 	aff := r.Intn(2) == 0
 	rec, _ := ersctl.NewReconciler(ersctl.ReconcilerOptions{IsNodeAffinitySupported: aff}, cl, theScheme, logr.Discard(), record.NewFakeRecorder(1000))
 	in := ersInput(cl, testNS, testEDS, target.Name, aff, rec)
 	out, nowC := runErsReconcile(rec, cl, wl, testNS, testEDS, target.Name)
 	in["now"] = nowC
 	cat := w.cat
+	if failAt != nil {
+		in["faulted"] = true
+		for k, f := range failAt {
+			if k < len(out.Order) {
+				cat = append(cat, "fault:"+f+":"+strings.SplitN(out.Order[k], ":", 2)[0])
+			}
+		}
+	}
 	cat = append(cat, "kind:"+out.Kind, "target:"+target.Name)
 	if len(out.Creates) > 0 {
 		cat = append(cat, "creates")
@@ -381,6 +398,9 @@ func runErsReconcile(rec *ersctl.Reconciler, cl client.Client, wl *writeLog, ns,
 	if out.Order == nil {
 		out.Order = []string{}
 	}
+	wl.mu.Lock()
+	out.AppliedPods = wl.AppliedPods
+	wl.mu.Unlock()
 	if p {
 		out.Kind = "panic"
 		out.Foreign = append(out.Foreign, "panic: "+pmsg)
